@@ -54,6 +54,9 @@ pub uninterp spec fn unit01(x: f64) -> bool;
 pub axiom fn ieee_f1_scale_in_range(x: f64, n: usize)
     requires unit01(x), 1 <= n, n <= 0x20_0000_0000_0000,
     ensures f64_as_usize(x.mul_spec(usize_as_f64(n))) < n;
+// x * 1 is not below x (IEEE: x * 1.0 == x for every non-NaN x; Kani harness kani/ieee.rs::ieee_mul_one, full domain)
+pub axiom fn ieee_mul_one(x: f64)
+    ensures x.mul_spec(i32_as_f64(1i32)).partial_cmp_spec(&x) != Some(core::cmp::Ordering::Less);
 pub uninterp spec fn usize_as_f32(n: usize) -> f32;
 pub trait VxAsF32: Sized { spec fn as_f32_spec(self) -> f32; fn vx_to_f32(self) -> (r: f32) ensures r == self.as_f32_spec(); }
 impl VxAsF32 for usize { open spec fn as_f32_spec(self) -> f32 { usize_as_f32(self) } #[verifier::external_body] fn vx_to_f32(self) -> (r: f32) { self as f32 } }
